@@ -70,3 +70,24 @@ Theorem C02_solve_optimal_refuted_before_fix :
     obj (svars s') (place_of y) < obj (svars s') (place_of (final_positions s')).
 Proof. exact solve_optimal_refuted_before_fix. Qed.
 Print Assumptions C02_solve_optimal_refuted_before_fix.
+
+(* ---- second round: the structural prerequisites of the stretch lemma `compute_dfdv_stationary` are now proved
+   (Vpsc/VpscForest.v, VpscReach.v, VpscStats.v): in every reachable state the active constraints of a block form a
+   spanning tree of it (the multipliers supported on the active set are therefore unique), active constraints are
+   tight, and the block statistics are the sums over the block (A2 > 0).  "solve() ends at a KKT point" itself is still
+   decided per run by the certificate (C02_solve_certified_partial). *)
+From Adapt Require Import Vpsc.VpscInv Vpsc.VpscForest Vpsc.VpscReach Vpsc.VpscStats.
+
+Theorem C02_active_forest_reachable s : reachable s -> book s /\ act_inv s /\ forest s.
+Proof. exact (fun R => let I := reachable_inv s R in conj (i_book s I) (conj (i_act s I) (i_forest s I))). Qed.
+Print Assumptions C02_active_forest_reachable.
+
+(* the returned positions of solve() are feasible for the unflagged constraints in every history: exact on active
+   constraints and equalities, within the loop-exit tolerance -1e-10 on the others *)
+Theorem C02_solve_feasible_history fuel s s' :
+  reachable_wf s -> inc_solve fuel s = Ok s' ->
+  forall k, (k < length (scons s'))%nat -> uns_of s' k = false ->
+    let sl := slackv (svars s') (place_of (final_positions s')) (con_of s' k) in
+    ZERO_UPPERBOUND <= sl /\ (act_of s' k = true -> sl == 0) /\ (ceq (con_of s' k) = true -> sl == 0).
+Proof. exact (fun R H => sat_on_return_history fuel s Solve s' R H). Qed.
+Print Assumptions C02_solve_feasible_history.
